@@ -93,4 +93,20 @@ def lockVerifyRequestDoc : Sch :=
 def objectVerifyRequestDoc : Sch :=
   .mk (some .object) [("oid", strSch), ("size", .mk (some .number) [] [] none (some 0) true)] ["oid", "size"] none none false
 
+/-! ### which transfer adapter carries the objects of a batch answer
+tq/transfer_queue.go: `q.useAdapter(bRes.TransferAdapterName)` before the objects of EVERY answer are
+handed on; tq/manifest.go NewAdapterOrDefault: a name that is not configured (the empty name of an
+answer without a `transfer` member included) means `basic` (docs/api/batch.md: "transfer — … basic if
+omitted"). -/
+def resolveAdapter (avail : List String) (name : String) : String :=
+  if name ∈ avail then name else "basic"
+
+/-- useAdapter: `cur` is the Name() of the running adapter, if there is one -/
+def useAdapter (avail : List String) (cur : Option String) (name : String) : Option String :=
+  if cur = some name then cur else some (resolveAdapter avail name)
+
+/-- the adapter in charge after a sequence of answers -/
+def adapterAfter (avail : List String) (cur : Option String) (answers : List String) : Option String :=
+  answers.foldl (useAdapter avail) cur
+
 end ApiReq
